@@ -2725,7 +2725,9 @@ Proof.
   { intros s t. unfold eq_answer. rewrite Ha, Hf. cbn [N.eqb Pos.eqb andb fst]. reflexivity. }
   assert (Hdb : forall id, drop_boom sc id = false).
   { intros id. unfold drop_boom. rewrite Hf. reflexivity. }
-  constructor; intros; cbn [env_map eqK eqKQ eqQQ eqQK dropK dropV fst]; first [apply Heq | apply Hdb].
+  assert (Hct : forall a b, cls_truth sc a b = N.eqb a b).
+  { intros a b. unfold cls_truth, asym. rewrite Ha. reflexivity. }
+  constructor; intros; cbn [env_map eqK eqKQ eqQQ eqQK dropK dropV fst]; rewrite ?Hct; first [apply Heq | apply Hdb].
 Qed.
 Let HLc := env_map_lawful_cf.
 
